@@ -1,6 +1,751 @@
 import EoVerif.Model.GenCompile
 import EoVerif.Spec.WellFormedTypes
+import EoVerif.Lemmas.GenWF
 /-! Helper lemmas for C17b (namespace EoVerif.Gen.Decls). -/
 namespace EoVerif.Gen.Decls
+open EoVerif.Spec EoVerif.Gen.WF
+
+/-! ### `str.split(":")` -/
+
+theorem splitOnChar_ne_nil (sep : Char) : ∀ (cs cur : List Char), PyStr.splitOnChar sep cs cur ≠ []
+  | [], cur => by simp [PyStr.splitOnChar]
+  | c :: cs, cur => by
+    unfold PyStr.splitOnChar
+    split
+    · simp
+    · exact splitOnChar_ne_nil sep cs _
+
+theorem splitOnChar_single (sep : Char) : ∀ (cs cur ys : List Char),
+    PyStr.splitOnChar sep cs cur = [ys] → ys = cur.reverse ++ cs
+  | [], cur, ys, h => by simp [PyStr.splitOnChar] at h; simp [h]
+  | c :: cs, cur, ys, h => by
+    unfold PyStr.splitOnChar at h
+    split at h
+    · simp only [List.cons.injEq] at h
+      exact absurd h.2 (splitOnChar_ne_nil sep cs [])
+    · have := splitOnChar_single sep cs (c :: cur) ys h
+      simp [this]
+
+/-- a one-piece split is the string itself -/
+theorem splitColon_single {s x : String} (h : PyStr.splitColon s = [x]) : x = s := by
+  unfold PyStr.splitColon at h
+  cases hs : PyStr.splitOnChar ':' s.toList [] with
+  | nil => rw [hs] at h; cases h
+  | cons a as =>
+    rw [hs] at h
+    cases as with
+    | cons b bs => simp at h
+    | nil =>
+      have := splitOnChar_single ':' s.toList [] a hs
+      simp only [List.map_cons, List.map_nil, List.cons.injEq, and_true] at h
+      rw [← h, this]; simp [String.ofList_toList]
+
+/-! ### `get_text` -/
+
+theorem getText_textOf {v : Xml} {t : Option String} (h : v.getText = .ok t) : textOf v = t := by
+  unfold Xml.getText at h
+  unfold textOf
+  dsimp only at h ⊢
+  cases htl : Xml.nonBlankTails v.children with
+  | nil =>
+    rw [htl] at h
+    simp only [Xml.getText.go] at h
+    cases h; rfl
+  | cons x xs =>
+    have hx : x.isEmpty = false := by
+      have : x ∈ Xml.nonBlankTails v.children := by rw [htl]; exact List.mem_cons_self ..
+      unfold Xml.nonBlankTails at this
+      have := (List.mem_filter.1 this).2
+      simpa using this
+    rw [htl] at h
+    cases xs with
+    | nil =>
+      simp only [Xml.getText.go] at h
+      by_cases ht : (PyStr.strip (v.text.getD "")).isEmpty = true
+      · simp only [ht, Bool.not_true, Bool.false_eq_true, ↓reduceIte] at h
+        cases h
+        simp [hx, ht]
+      · simp only [ht, Bool.not_false, ↓reduceIte] at h
+        cases h
+    | cons y ys =>
+      simp only [Xml.getText.go] at h
+      by_cases ht : (PyStr.strip (v.text.getD "")).isEmpty = true
+      · simp [ht, hx] at h
+      · simp [ht] at h
+
+/-! ### enum members -/
+
+def valName (v : Xml) : Option String := (v.get "name").map (fun x => if x == "None" then x ++ "_" else x)
+def valOrd (v : Xml) : Option Int := PyStr.tryParseInt (textOf v)
+
+theorem enumValues_spec (en : String) : ∀ (vs : List Xml) (ords : List Int) (names : List String) (r : List EnumVal),
+    enumValues en vs ords names = .ok r →
+      (∀ v ∈ vs, (valName v).isSome = true ∧ (valOrd v).isSome = true) ∧
+      (vs.map valName).Nodup ∧ (vs.map valOrd).Nodup ∧
+      (∀ x ∈ names, some x ∉ vs.map valName) ∧ (∀ o ∈ ords, some o ∉ vs.map valOrd) ∧
+      r.map (·.name) = vs.filterMap (fun v => v.get "name")
+  | [], ords, names, r, h => by
+    simp only [enumValues] at h; cases h
+    simp
+  | v :: vs, ords, names, r, h => by
+    unfold enumValues at h
+    split at h
+    · cases h
+    · rename_i text htext
+      split at h
+      · cases h
+      · rename_i vn hvn
+        have hvn' := getReq_ok hvn
+        have htx := getText_textOf htext
+        dsimp only at h
+        generalize hpy : (if vn == "None" then vn ++ "_" else vn) = py at h
+        split at h
+        · cases h
+        · rename_i ordinal hord
+          split at h
+          · cases h
+          · rename_i hno
+            split at h
+            · cases h
+            · rename_i hnn
+              cases hr : enumValues en vs (ordinal :: ords) (py :: names) with
+              | error m => rw [hr] at h; cases h
+              | ok r' =>
+                rw [hr] at h
+                simp only [Except.map] at h
+                cases h
+                obtain ⟨h1, h2, h3, h4, h5, h6⟩ := enumValues_spec en vs _ _ r' hr
+                have hN : valName v = some py := by
+                  rw [← hpy]; simp [valName, hvn']
+                have hO : valOrd v = some ordinal := by
+                  simp [valOrd, htx, hord]
+                refine ⟨?_, ?_, ?_, ?_, ?_, ?_⟩
+                · intro w hw
+                  rcases List.mem_cons.1 hw with rfl | hw
+                  · simp [hN, hO]
+                  · exact h1 w hw
+                · rw [List.map_cons, List.nodup_cons]
+                  refine ⟨?_, h2⟩
+                  rw [hN]
+                  exact h4 _ (List.mem_cons_self ..)
+                · rw [List.map_cons, List.nodup_cons]
+                  refine ⟨?_, h3⟩
+                  rw [hO]
+                  exact h5 _ (List.mem_cons_self ..)
+                · intro x hx
+                  rw [List.map_cons, List.mem_cons, hN]
+                  rintro (heq | hmem)
+                  · have : x = py := by simpa using heq
+                    subst this
+                    simp [hx] at hnn
+                  · exact h4 x (List.mem_cons_of_mem _ hx) hmem
+                · intro o ho
+                  rw [List.map_cons, List.mem_cons, hO]
+                  rintro (heq | hmem)
+                  · have : o = ordinal := by simpa using heq
+                    subst this
+                    simp [ho] at hno
+                  · exact h5 o (List.mem_cons_of_mem _ ho) hmem
+                · simp [hvn', h6]
+
+/-! ### type resolution -/
+
+theorem createStruct_shape {defs : Defs} {fuel : Nat} {u : Unresolved} {t : Ty}
+    (h : createStruct defs fuel u = .ok t) : ∃ n p f b, t = .struct n p f b := by
+  cases fuel with
+  | zero => simp [createStruct] at h
+  | succ fuel =>
+    unfold createStruct at h
+    split at h
+    · cases h
+    · dsimp only at h
+      split at h
+      · cases h
+      · split at h
+        · cases h
+        · cases h
+          exact ⟨_, _, _, _, rfl⟩
+
+theorem createEnum_shape {defs : Defs} {fuel : Nat} {u : Unresolved} {ov : Option IntKind} {t : Ty}
+    (h : createEnum defs fuel u ov = .ok t) :
+    ∃ en k vals, t = .enum en u.path k vals ∧ u.xml.get "name" = some en ∧
+      enumValues en (u.xml.findall "value") [] [] = .ok vals ∧
+      (ov = none → ∃ tn fuel', u.xml.get "type" = some tn ∧ en ≠ tn ∧
+        getType defs fuel' tn none = .ok (.int k)) := by
+  cases fuel with
+  | zero => simp [createEnum] at h
+  | succ fuel =>
+    unfold createEnum at h
+    split at h
+    · cases h
+    · rename_i en hen
+      dsimp only at h
+      split at h
+      · cases h
+      · rename_i k hk
+        split at h
+        · cases h
+        · rename_i vals hvals
+          cases h
+          refine ⟨en, k, vals, rfl, getReq_ok hen, hvals, ?_⟩
+          intro hov
+          subst hov
+          dsimp only at hk
+          split at hk
+          · cases hk
+          · rename_i tn htn
+            split at hk
+            · cases hk
+            · rename_i hne
+              split at hk
+              · cases hk
+              · rename_i k' hk'
+                cases hk
+                exact ⟨tn, fuel, getReq_ok htn, by simpa using hne, hk'⟩
+              · cases hk
+
+
+theorem ofName_mem {n : String} {k : IntKind} (h : IntKind.ofName? n = some k) : n ∈ intTypeNames := by
+  unfold IntKind.ofName? at h
+  split at h <;> simp [intTypeNames] at h ⊢
+
+theorem createType_cases {defs : Defs} {fuel : Nat} {n : String} {t : Ty}
+    (h : createType defs fuel n = .ok t) (hs : PyStr.splitColon n = [n]) :
+    (∃ k, IntKind.ofName? n = some k ∧ t = .int k) ∨ t = .bool .char ∨ (∃ e, t = .str e none) ∨ t = .blob ∨
+    (∃ u fuel', defs.find? n = some u ∧ (u.xml.tag == "enum") = true ∧ createEnum defs fuel' u none = .ok t) ∨
+    (∃ u fuel', createStruct defs fuel' u = .ok t) := by
+  cases fuel with
+  | zero => simp [createType] at h
+  | succ fuel =>
+    unfold createType at h
+    simp only [hs] at h
+    split at h
+    · cases h
+    · rename_i result hres
+      cases h
+      split at hres
+      · rename_i k hk
+        cases hres
+        exact .inl ⟨k, hk, rfl⟩
+      · split at hres
+        · cases hres; exact .inr (.inl rfl)
+        · split at hres
+          · cases hres; exact .inr (.inr (.inl ⟨_, rfl⟩))
+          · split at hres
+            · cases hres; exact .inr (.inr (.inl ⟨_, rfl⟩))
+            · split at hres
+              · cases hres; exact .inr (.inr (.inr (.inl rfl)))
+              · split at hres
+                · cases hres
+                · rename_i u hu
+                  split at hres
+                  · rename_i htag
+                    exact .inr (.inr (.inr (.inr (.inl ⟨u, fuel, hu, htag, hres⟩))))
+                  · split at hres
+                    · exact .inr (.inr (.inr (.inr (.inr ⟨u, fuel, hres⟩))))
+                    · cases hres
+
+/-- an `.int` result only comes from a builtin integer name -/
+theorem createType_int {defs : Defs} {fuel : Nat} {n : String} {k : IntKind}
+    (h : createType defs fuel n = .ok (.int k)) : n ∈ intTypeNames := by
+  cases hp : PyStr.splitColon n with
+  | nil => exact absurd hp (by unfold PyStr.splitColon; simp [splitOnChar_ne_nil])
+  | cons a as =>
+    cases as with
+    | nil =>
+      have := splitColon_single hp
+      subst this
+      rcases createType_cases h hp with ⟨k', hk', _⟩ | h' | ⟨e, h'⟩ | h' | ⟨u, f', _, _, h'⟩ | ⟨u, f', h'⟩
+      · exact ofName_mem hk'
+      · cases h'
+      · cases h'
+      · cases h'
+      · obtain ⟨_, _, _, h'', _⟩ := createEnum_shape h'; cases h''
+      · obtain ⟨_, _, _, _, h''⟩ := createStruct_shape h'; cases h''
+    | cons b bs =>
+      cases fuel with
+      | zero => simp [createType] at h
+      | succ fuel =>
+        unfold createType at h
+        simp only [hp] at h
+        split at h
+        · cases h
+        · rename_i under hunder
+          split at h
+          · cases h
+          · rename_i result hres
+            split at h
+            · cases h
+            · cases h
+            · cases h
+            · exfalso
+              split at hunder
+              · rename_i heq; cases heq
+              · split at hunder
+                · cases hunder
+                · split at hunder
+                  · cases hunder
+                  · split at hunder
+                    · cases hunder
+                    · cases hunder
+              · cases hunder
+
+theorem getType_none {defs : Defs} {fuel : Nat} {n : String} {t : Ty}
+    (h : getType defs fuel n none = .ok t) : ∃ fuel', createType defs fuel' n = .ok t := by
+  cases fuel with
+  | zero => simp [getType] at h
+  | succ fuel =>
+    unfold getType at h
+    exact ⟨fuel, h⟩
+
+theorem getType_int {defs : Defs} {fuel : Nat} {n : String} {k : IntKind}
+    (h : getType defs fuel n none = .ok (.int k)) : n ∈ intTypeNames := by
+  obtain ⟨f, hf⟩ := getType_none h
+  exact createType_int hf
+
+/-- an enum resolved without override is a well-formed declaration -/
+theorem createEnum_enumWF {defs : Defs} {fuel : Nat} {u : Unresolved} {t : Ty}
+    (h : createEnum defs fuel u none = .ok t) : enumWF u.xml = true := by
+  obtain ⟨en, k, vals, _, hname, hvals, hty⟩ := createEnum_shape h
+  obtain ⟨tn, f', htn, hne, hint⟩ := hty rfl
+  have hmem := getType_int hint
+  obtain ⟨h1, h2, h3, _, _, _⟩ := enumValues_spec en _ _ _ _ hvals
+  unfold enumWF
+  simp only [hname, htn]
+  have e1 : (intTypeNames.contains tn) = true := by simpa using hmem
+  have e2 : (en != tn) = true := by simpa using hne
+  have e3 : (List.map valName (u.xml.findall "value")).all Option.isSome = true := by
+    rw [List.all_eq_true]
+    intro x hx
+    obtain ⟨v, hv, rfl⟩ := List.mem_map.1 hx
+    exact (h1 v hv).1
+  have e4 : (List.map valOrd (u.xml.findall "value")).all Option.isSome = true := by
+    rw [List.all_eq_true]
+    intro x hx
+    obtain ⟨v, hv, rfl⟩ := List.mem_map.1 hx
+    exact (h1 v hv).2
+  show (intTypeNames.contains tn && en != tn &&
+    ((List.map valName (u.xml.findall "value")).all Option.isSome &&
+      (List.map valOrd (u.xml.findall "value")).all Option.isSome &&
+      decide (List.map valName (u.xml.findall "value")).Nodup &&
+      decide (List.map valOrd (u.xml.findall "value")).Nodup)) = true
+  rw [e1, e2, e3, e4]
+  simp [h2, h3]
+
+/-! ### indexing -/
+
+def entries (dir : String) (es : List Xml) : Defs :=
+  es.filterMap (fun e => (e.get "name").map (fun n => (n, (⟨e, dir⟩ : Unresolved))))
+def fileEntries (f : ProtoFile) : Defs := entries f.dir (f.root.findall "enum" ++ f.root.findall "struct")
+def allEntries (files : List ProtoFile) : Defs := (files.map fileEntries).flatten
+
+theorem find_isSome_false {d : Defs} {n : String} (h : (d.find? n).isSome = false) : n ∉ d.map (·.1) := by
+  unfold Defs.find? at h
+  intro hm
+  obtain ⟨p, hp, rfl⟩ := List.mem_map.1 hm
+  have : (List.find? (fun x => x.1 == p.1) d) = none := by simpa using h
+  have := List.find?_eq_none.1 this p hp
+  simp at this
+
+theorem defineAll_spec (f : ProtoFile) : ∀ (es : List Xml) (acc defs : Defs),
+    indexFiles.defineAll f es acc = .ok defs →
+      (∀ e ∈ es, (e.get "name").isSome = true) ∧ defs = acc ++ entries f.dir es ∧
+      ((acc.map (·.1)).Nodup → (defs.map (·.1)).Nodup)
+  | [], acc, defs, h => by
+    unfold indexFiles.defineAll at h
+    cases h
+    simp [entries]
+  | e :: es, acc, defs, h => by
+    unfold indexFiles.defineAll at h
+    split at h
+    · cases h
+    · rename_i n hn
+      have hn' := getReq_ok hn
+      split at h
+      · cases h
+      · rename_i hfind
+        have hnot := find_isSome_false (by simpa using hfind)
+        obtain ⟨h1, h2, h3⟩ := defineAll_spec f es _ _ h
+        refine ⟨?_, ?_, ?_⟩
+        · intro x hx
+          rcases List.mem_cons.1 hx with rfl | hx
+          · simp [hn']
+          · exact h1 x hx
+        · rw [h2]; simp [entries, hn']
+        · intro hnd
+          apply h3
+          rw [List.map_append, List.nodup_append]
+          refine ⟨hnd, by simp, ?_⟩
+          intro a ha b hb
+          simp only [List.map_cons, List.map_nil, List.mem_singleton] at hb
+          subst hb
+          intro hab; subst hab; exact hnot ha
+
+theorem indexFiles_spec : ∀ (fs : List ProtoFile) (acc defs : Defs),
+    indexFiles fs acc = .ok defs →
+      (∀ f ∈ fs, (f.root.tag == "protocol") = true ∧
+        (∀ e ∈ f.root.findall "enum" ++ f.root.findall "struct", (e.get "name").isSome = true) ∧
+        indexFiles.packets (f.root.findall "packet") [] = .ok ()) ∧
+      defs = acc ++ allEntries fs ∧ ((acc.map (·.1)).Nodup → (defs.map (·.1)).Nodup)
+  | [], acc, defs, h => by
+    unfold indexFiles at h
+    cases h
+    simp [allEntries]
+  | f :: fs, acc, defs, h => by
+    unfold indexFiles at h
+    extract_lets jp at h
+    split at h
+    · cases h
+    · rename_i htag
+      simp only [jp] at h
+      obtain ⟨d1, hd1, h⟩ := except_bind_ok h
+      obtain ⟨d2, hd2, h⟩ := except_bind_ok h
+      obtain ⟨u, hpk, h⟩ := except_bind_ok h
+      obtain ⟨a1, a2, a3⟩ := defineAll_spec f _ _ _ hd1
+      obtain ⟨b1, b2, b3⟩ := defineAll_spec f _ _ _ hd2
+      obtain ⟨c1, c2, c3⟩ := indexFiles_spec fs _ _ h
+      refine ⟨?_, ?_, ?_⟩
+      · intro g hg
+        rcases List.mem_cons.1 hg with rfl | hg
+        · refine ⟨by simpa using htag, ?_, hpk⟩
+          intro e he
+          rcases List.mem_append.1 he with he | he
+          · exact a1 e he
+          · exact b1 e he
+        · exact c1 g hg
+      · rw [c2, b2, a2]
+        simp [allEntries, fileEntries, entries, List.filterMap_append]
+      · intro hnd
+        exact c3 (b3 (a3 hnd))
+
+theorem mem_entries {dir : String} {es : List Xml} {n : String} {u : Unresolved} :
+    (n, u) ∈ entries dir es ↔ ∃ e ∈ es, e.get "name" = some n ∧ u = ⟨e, dir⟩ := by
+  unfold entries
+  rw [List.mem_filterMap]
+  constructor
+  · rintro ⟨e, he, h⟩
+    cases hn : e.get "name" with
+    | none => rw [hn] at h; cases h
+    | some m =>
+      rw [hn] at h
+      simp only [Option.map_some, Option.some.injEq, Prod.mk.injEq] at h
+      obtain ⟨rfl, rfl⟩ := h
+      exact ⟨e, he, hn, rfl⟩
+  · rintro ⟨e, he, hn, rfl⟩
+    exact ⟨e, he, by simp [hn]⟩
+
+theorem mem_allEntries {files : List ProtoFile} {n : String} {u : Unresolved} :
+    (n, u) ∈ allEntries files ↔
+      ∃ f ∈ files, ∃ e ∈ f.root.findall "enum" ++ f.root.findall "struct", e.get "name" = some n ∧ u = ⟨e, f.dir⟩ := by
+  unfold allEntries
+  rw [List.mem_flatten]
+  constructor
+  · rintro ⟨l, hl, hm⟩
+    obtain ⟨f, hf, rfl⟩ := List.mem_map.1 hl
+    exact ⟨f, hf, mem_entries.1 hm⟩
+  · rintro ⟨f, hf, h⟩
+    exact ⟨fileEntries f, List.mem_map.2 ⟨f, hf, rfl⟩, mem_entries.2 h⟩
+
+theorem entries_fst (dir : String) (es : List Xml) :
+    (entries dir es).map (·.1) = es.filterMap (fun e => e.get "name") := by
+  induction es with
+  | nil => rfl
+  | cons e es ih =>
+    unfold entries at ih ⊢
+    cases hn : e.get "name" <;> simp [hn, ih]
+
+theorem allEntries_fst (files : List ProtoFile) :
+    (allEntries files).map (·.1) = declaredTypeNames (files.map (·.root)) := by
+  unfold allEntries declaredTypeNames
+  induction files with
+  | nil => rfl
+  | cons f fs ih =>
+    simp only [List.map_cons, List.flatten_cons, List.map_append]
+    rw [ih]
+    simp [fileEntries, entries_fst]
+
+theorem find_of_nodup : ∀ {d : Defs} {n : String} {u : Unresolved},
+    (d.map (·.1)).Nodup → (n, u) ∈ d → d.find? n = some u
+  | [], _, _, _, h => by cases h
+  | p :: d, n, u, hnd, h => by
+    rw [List.map_cons, List.nodup_cons] at hnd
+    unfold Defs.find?
+    rcases List.mem_cons.1 h with rfl | h
+    · simp [List.find?]
+    · have hne : (p.1 == n) = false := by
+        cases hp : p.1 == n with
+        | false => rfl
+        | true =>
+          have : p.1 = n := by simpa using hp
+          exact absurd (List.mem_map.2 ⟨(n, u), h, this.symm⟩) hnd.1
+      simp only [List.find?, hne]
+      exact find_of_nodup hnd.2 h
+
+theorem find_mem {d : Defs} {n : String} {u : Unresolved} (h : d.find? n = some u) : (n, u) ∈ d := by
+  unfold Defs.find? at h
+  cases hf : List.find? (fun x => x.1 == n) d with
+  | none => rw [hf] at h; cases h
+  | some p =>
+    rw [hf] at h
+    have h1 := List.find?_some hf
+    have h2 := List.mem_of_find?_eq_some hf
+    simp only [Option.map_some, Option.some.injEq] at h
+    have : p.1 = n := by simpa using h1
+    subst this; subst h
+    exact h2
+
+/-- what `compile` accepting means, stage by stage -/
+theorem compile_spec {files : List ProtoFile} {out : GenOutput} (h : compile files = .ok out) :
+    ∃ defs : Defs, ∃ fuel : Nat,
+      defs = allEntries files ∧ (defs.map (·.1)).Nodup ∧
+      (∀ f ∈ files, (f.root.tag == "protocol") = true ∧
+        (∀ e ∈ f.root.findall "enum" ++ f.root.findall "struct", (e.get "name").isSome = true) ∧
+        indexFiles.packets (f.root.findall "packet") [] = .ok ()) ∧
+      (∀ f ∈ files, ∃ o, genFile (getType defs fuel) f = .ok o) := by
+  unfold compile at h
+  obtain ⟨defs, hd, h⟩ := except_bind_ok h
+  extract_lets tf at h
+  obtain ⟨outs, ho, _⟩ := except_bind_ok h
+  obtain ⟨h1, h2, h3⟩ := indexFiles_spec files [] defs hd
+  refine ⟨defs, 4 * defs.length + 16, by simpa using h2, h3 (by simp), h1, ?_⟩
+  intro f hf
+  exact mapM'_ok ho f hf
+
+/-! ### from `compile` down to enums and packets -/
+
+theorem genFile_parts {tf : TypeEnv} {f : ProtoFile} {o : GenOutput} (h : genFile tf f = .ok o) :
+    (∀ e ∈ f.root.findall "enum", ∃ y, genEnum tf e = .ok y) ∧
+    (∀ p ∈ f.root.findall "packet", ∃ y, genPacket tf f.dir p = .ok y) := by
+  unfold genFile at h
+  obtain ⟨enums, he, h⟩ := except_bind_ok h
+  obtain ⟨structs, hs, h⟩ := except_bind_ok h
+  obtain ⟨packets, hp, h⟩ := except_bind_ok h
+  exact ⟨mapM'_ok he, mapM'_ok hp⟩
+
+theorem genEnum_spec {tf : TypeEnv} {e : Xml} {y : EnumIR × GenFile} (h : genEnum tf e = .ok y) :
+    ∃ n a b c vals, e.get "name" = some n ∧ tf n none = .ok (.enum a b c vals) := by
+  unfold genEnum at h
+  obtain ⟨n, hn, h⟩ := except_bind_ok h
+  obtain ⟨t, ht, h⟩ := except_bind_ok h
+  split at h
+  · exact ⟨n, _, _, _, _, getReq_ok hn, ht⟩
+  · cases h
+
+theorem genPacket_spec {tf : TypeEnv} {dir : String} {p : Xml} {r : List ClassIR × GenFile}
+    (h : genPacket tf dir p = .ok r) :
+    (dir == "net/client" || dir == "net/server") = true ∧
+    ∃ fam act a b c fvals a' b' c' avals, p.get "family" = some fam ∧ p.get "action" = some act ∧
+      tf "PacketFamily" none = .ok (.enum a b c fvals) ∧ tf "PacketAction" none = .ok (.enum a' b' c' avals) ∧
+      (fvals.find? (·.name == fam)).isSome = true ∧ (avals.find? (·.name == act)).isSome = true := by
+  unfold genPacket at h
+  extract_lets jp at h
+  have hdir : (dir == "net/client" || dir == "net/server") = true ∧ ∃ s, jp s = .ok r := by
+    split at h
+    · rename_i h1
+      obtain ⟨s, _, h⟩ := except_bind_ok h
+      exact ⟨by simp [h1], s, h⟩
+    · split at h
+      · rename_i h1
+        obtain ⟨s, _, h⟩ := except_bind_ok h
+        exact ⟨by simp [h1], s, h⟩
+      · obtain ⟨s, hs, h⟩ := except_bind_ok h
+        cases hs
+  obtain ⟨hd, suffix, h⟩ := hdir
+  refine ⟨hd, ?_⟩
+  simp only [jp] at h
+  obtain ⟨fam, hfam, h⟩ := except_bind_ok h
+  obtain ⟨act, hact, h⟩ := except_bind_ok h
+  obtain ⟨ft, hft, h⟩ := except_bind_ok h
+  split at h
+  · obtain ⟨fvals, hfv, h⟩ := except_bind_ok h
+    cases hfv
+    obtain ⟨at_, hat, h⟩ := except_bind_ok h
+    split at h
+    · obtain ⟨avals, hav, h⟩ := except_bind_ok h
+      cases hav
+      split at h
+      · rename_i fv hfv
+        obtain ⟨_, _, h⟩ := except_bind_ok h
+        split at h
+        · rename_i av hav
+          exact ⟨fam, act, _, _, _, _, _, _, _, _, getReq_ok hfam, getReq_ok hact, hft, hat, by simp [hfv], by simp [hav]⟩
+        · obtain ⟨_, hx, _⟩ := except_bind_ok h; cases hx
+      · obtain ⟨_, hx, _⟩ := except_bind_ok h; cases hx
+    · obtain ⟨_, hx, _⟩ := except_bind_ok h; cases hx
+  · obtain ⟨_, hx, _⟩ := except_bind_ok h; cases hx
+
+/-- an `.enum` result for a colon-free name is the (only) definition of that name, an `<enum>` element that
+    is well-formed, and the members are its `<value>`s in order -/
+theorem resolve_enum {defs : Defs} {fuel : Nat} {n a b : String} {c : IntKind} {vals : List EnumVal}
+    (h : getType defs fuel n none = .ok (.enum a b c vals)) (hs : PyStr.splitColon n = [n]) :
+    ∃ u, defs.find? n = some u ∧ (u.xml.tag == "enum") = true ∧ enumWF u.xml = true ∧
+      vals.map (·.name) = (u.xml.findall "value").filterMap (fun v => v.get "name") := by
+  obtain ⟨f, hf⟩ := getType_none h
+  rcases createType_cases hf hs with ⟨k', _, h'⟩ | h' | ⟨e, h'⟩ | h' | ⟨u, f', hu, htag, h'⟩ | ⟨u, f', h'⟩
+  · cases h'
+  · cases h'
+  · cases h'
+  · cases h'
+  · refine ⟨u, hu, htag, createEnum_enumWF h', ?_⟩
+    obtain ⟨en, k, vals', heq, _, hvals, _⟩ := createEnum_shape h'
+    cases heq
+    exact (enumValues_spec _ _ _ _ _ hvals).2.2.2.2.2
+  · obtain ⟨_, _, _, _, h''⟩ := createStruct_shape h'; cases h''
+
+theorem mem_findall {r e : Xml} {t : String} (h : e ∈ r.findall t) : (e.tag == t) = true := by
+  unfold Xml.findall at h
+  exact (List.mem_filter.1 h).2
+
+theorem memberNames_eq {files : List ProtoFile} {nm : String} {u : Unresolved}
+    (hnd : ((allEntries files).map (·.1)).Nodup) (hu : (allEntries files).find? nm = some u)
+    (htag : (u.xml.tag == "enum") = true) :
+    memberNames (files.map (·.root)) nm = (u.xml.findall "value").filterMap (fun v => v.get "name") := by
+  unfold memberNames
+  split
+  · rename_i e he
+    have hp := List.find?_some he
+    have hm := List.mem_of_find?_eq_some he
+    rw [List.mem_flatten] at hm
+    obtain ⟨l, hl, hel⟩ := hm
+    rw [List.map_map] at hl
+    obtain ⟨f, hf, rfl⟩ := List.mem_map.1 hl
+    have hname : e.get "name" = some nm := by simpa using hp
+    have hmem : (nm, (⟨e, f.dir⟩ : Unresolved)) ∈ allEntries files :=
+      mem_allEntries.2 ⟨f, hf, e, List.mem_append_left _ hel, hname, rfl⟩
+    have := find_of_nodup hnd hmem
+    rw [hu] at this
+    cases this
+    rfl
+  · rename_i hnone
+    exfalso
+    obtain ⟨f, hf, e, he, hname, rfl⟩ := mem_allEntries.1 (find_mem hu)
+    rcases List.mem_append.1 he with he | he
+    · have := List.find?_eq_none.1 hnone e (by
+        rw [List.mem_flatten]
+        exact ⟨f.root.findall "enum", by rw [List.map_map]; exact List.mem_map.2 ⟨f, hf, rfl⟩, he⟩)
+      simp [hname] at this
+    · have h1 := mem_findall he
+      have h1' : e.tag = "struct" := by simpa using h1
+      have h2' : e.tag = "enum" := by simpa using htag
+      rw [h1'] at h2'
+      exact absurd h2' (by decide)
+
+theorem packetsWFAux_of (fams acts : List String) (dir : String) :
+    ∀ (ps earlier : List Xml) (seen : List String),
+      indexFiles.packets ps seen = .ok () →
+      (∀ q ∈ earlier, ∀ fam act, q.get "family" = some fam → q.get "action" = some act →
+        (fam ++ "_" ++ act) ∈ seen) →
+      (∀ p ∈ ps, (dir == "net/client" || dir == "net/server") = true ∧
+        ∀ fam act, p.get "family" = some fam → p.get "action" = some act →
+          fams.contains fam = true ∧ acts.contains act = true) →
+      packetsWFAux fams acts dir earlier ps = true
+  | [], _, _, _, _, _ => rfl
+  | p :: ps, earlier, seen, h, hinv, hok => by
+    unfold indexFiles.packets at h
+    split at h
+    · rename_i fam act hfam hact
+      have hfam' := getReq_ok hfam
+      have hact' := getReq_ok hact
+      dsimp only at h
+      split at h
+      · cases h
+      · rename_i hseen
+        obtain ⟨hd, hc⟩ := hok p (List.mem_cons_self ..)
+        obtain ⟨hcf, hca⟩ := hc fam act hfam' hact'
+        unfold packetsWFAux
+        rw [Bool.and_eq_true]
+        constructor
+        · unfold packetWF
+          simp only [hfam', hact', hd, hcf, hca, Bool.true_and]
+          rw [Bool.not_eq_true', ← Bool.not_eq_true, List.any_eq_true]
+          rintro ⟨q, hq, hqq⟩
+          rw [Bool.and_eq_true] at hqq
+          have q1 : q.get "family" = some fam := by simpa using hqq.1
+          have q2 : q.get "action" = some act := by simpa using hqq.2
+          exact hseen (by simpa using hinv q hq fam act q1 q2)
+        · apply packetsWFAux_of fams acts dir ps (earlier ++ [p]) _ h
+          · intro q hq fam' act' hf' ha'
+            rcases List.mem_append.1 hq with hq | hq
+            · exact List.mem_cons_of_mem _ (hinv q hq fam' act' hf' ha')
+            · simp only [List.mem_singleton] at hq
+              subst hq
+              rw [hfam'] at hf'; rw [hact'] at ha'
+              cases hf'; cases ha'
+              exact List.mem_cons_self ..
+          · intro p' hp'
+            exact hok p' (List.mem_cons_of_mem _ hp')
+    · cases h
+    · cases h
+
+theorem find_name_contains {vals : List EnumVal} {x : String}
+    (h : (vals.find? (·.name == x)).isSome = true) : (vals.map (·.name)).contains x = true := by
+  cases hfind : vals.find? (·.name == x) with
+  | none => rw [hfind] at h; cases h
+  | some v =>
+    have h1 := List.find?_some hfind
+    have h2 := List.mem_of_find?_eq_some hfind
+    have : v.name = x := by simpa using h1
+    rw [List.contains_iff_mem]
+    exact List.mem_map.2 ⟨v, h2, this⟩
+
+/-- C17b, declarations -/
+theorem declsWF_of_compile {files : List ProtoFile} {out : GenOutput} (h : compile files = .ok out) :
+    declsWF (files.map (·.root)) = true := by
+  obtain ⟨defs, fuel, rfl, hnd, hidx, hgen⟩ := compile_spec h
+  unfold declsWF
+  simp only [Bool.and_eq_true, List.all_eq_true, decide_eq_true_eq]
+  refine ⟨⟨⟨?_, ?_⟩, ?_⟩, ?_⟩
+  · intro r hr
+    obtain ⟨f, hf, rfl⟩ := List.mem_map.1 hr
+    exact (hidx f hf).1
+  · intro r hr
+    obtain ⟨f, hf, rfl⟩ := List.mem_map.1 hr
+    intro e he
+    exact (hidx f hf).2.1 e he
+  · rw [← allEntries_fst]; exact hnd
+  · intro r hr
+    obtain ⟨f, hf, rfl⟩ := List.mem_map.1 hr
+    intro e he
+    obtain ⟨o, ho⟩ := hgen f hf
+    obtain ⟨y, hy⟩ := (genFile_parts ho).1 e he
+    obtain ⟨n, a, b, c, vals, hn, ht⟩ := genEnum_spec hy
+    by_cases hs : PyStr.splitColon n = [n]
+    · obtain ⟨u, hu, _, hwf, _⟩ := resolve_enum ht hs
+      have := find_of_nodup hnd (mem_allEntries.2 ⟨f, hf, e, List.mem_append_left _ he, hn, rfl⟩)
+      rw [hu] at this
+      cases this
+      rw [Bool.or_eq_true]
+      exact Or.inr hwf
+    · rw [Bool.or_eq_true]
+      refine Or.inl ?_
+      unfold nameHasColon
+      rw [hn]
+      simpa using hs
+
+/-- C17b, packets -/
+theorem packetsWF_of_compile {files : List ProtoFile} {out : GenOutput} (h : compile files = .ok out) :
+    packetsWF (files.map (fun f => (f.dir, f.root))) = true := by
+  obtain ⟨defs, fuel, rfl, hnd, hidx, hgen⟩ := compile_spec h
+  have hroots : (files.map (fun f => (f.dir, f.root))).map (·.2) = files.map (·.root) := by
+    rw [List.map_map]; rfl
+  unfold packetsWF
+  dsimp only
+  rw [hroots, List.all_eq_true]
+  intro x hx
+  obtain ⟨f, hf, rfl⟩ := List.mem_map.1 hx
+  dsimp only
+  obtain ⟨o, ho⟩ := hgen f hf
+  apply packetsWFAux_of _ _ _ _ [] [] (hidx f hf).2.2 (by intro q hq; cases hq)
+  intro p hp
+  obtain ⟨y, hy⟩ := (genFile_parts ho).2 p hp
+  obtain ⟨hd, fam, act, a, b, c, fvals, a', b', c', avals, hfam, hact, hft, hat, hff, haf⟩ := genPacket_spec hy
+  refine ⟨hd, ?_⟩
+  intro fam' act' hf' ha'
+  rw [hfam] at hf'; rw [hact] at ha'
+  cases hf'; cases ha'
+  obtain ⟨u, hu, htag, _, hnames⟩ := resolve_enum hft (by decide)
+  obtain ⟨u', hu', htag', _, hnames'⟩ := resolve_enum hat (by decide)
+  rw [memberNames_eq hnd hu htag, ← hnames, memberNames_eq hnd hu' htag', ← hnames']
+  exact ⟨find_name_contains hff, find_name_contains haf⟩
 
 end EoVerif.Gen.Decls
